@@ -328,7 +328,8 @@ Print Assumptions C06_rollback_restores_values_candidate.
 Print Assumptions C06_rollback_restores_values_candidate_any_view.
 
 (** Step and run level: the executable instance Model/P2Inst.v (Proofs/P2PureRollbackRun.v) *)
-From OC Require Import Proofs.P2_ConvergeEx Proofs.P2PureReachRun Proofs.P2PureReachLabels Proofs.P2PureRollbackRun.
+From OC Require Import Proofs.P2_ConvergeEx Proofs.P2PureReachRun Proofs.P2PureReachLabels Proofs.P2PureRollbackRun
+     Proofs.P2PureRollbackQuiet.
 
 (* two commit steps: in an invariant world w0 the complete commit step of the Change proposal (t, i) writes the entry C1;
    in an invariant world w1 whose entry of t holds the same stored map, the complete commit step of a Rollback proposal
@@ -372,5 +373,38 @@ Theorem C06_rollback_restores_run_partial :
   live (view overlay C2) = live (view overlay C).
 Proof. exact rollback_restores_run. Qed.
 
+(* the same with the hypothesis [quiet] (a statement about every world between the two commits) DERIVED from the run:
+   it is enough that the rollback proposal directly follows the change in the proposal chain of the target
+   (p_prev R = i, one field of one record).  Committed.Index of t is i right after lc and p_prev R = i right before lr; it
+   never decreases (C02_cursors_monotone) and every complete commit step of a proposal of t moves it strictly upwards
+   (commit_step_moves: C02_links_ordered + the proposal indexes are positive), so no commit step of t lies in between
+   (quiet_from_cursor, Proofs/P2PureRollbackQuiet.v).  Still not derived from the run: the recorded rollback values and
+   rollback_wf, as above. *)
+Theorem C06_rollback_restores_run_chain_partial :
+  forall (ls1 ls2 : list Label) (t i j : N) (n n' : nat) (o o' : oracle) (P R : Prop2) (C C1' C2 : Cfg) (c : cmap),
+  let lc := LRec (CtlProp (t, i)) n o in
+  let lr := LRec (CtlProp (t, j)) n' o' in
+  let ls := ls1 ++ [lc] ++ ls2 ++ [lr] in
+  labels_wfb ls = true -> completes p2_init ls ->
+  props (x_run ls1) !! (t, i) = Some P -> p_details P = PChange c -> cfgs (x_run ls1) !! t = Some C ->
+  p_commit P = Some Doing -> p_apply P = None -> p_abort P = None -> c_committed C = p_prev P ->
+  props (x_run (ls1 ++ [lc] ++ ls2)) !! (t, j) = Some R -> p_details R = PRollback i -> p_prev R = i ->
+  cfgs (x_run (ls1 ++ [lc] ++ ls2)) !! t = Some C1' ->
+  p_commit R = Some Doing -> p_apply R = None -> p_abort R = None -> c_committed C1' = p_prev R ->
+  p_rbvalues R = Some (rollback_of (view overlay C) c) ->
+  rollback_wf i j (c_values C) (view overlay C) c = true ->
+  cfgs (x_run ls) !! t = Some C2 ->
+  live (view overlay C2) = live (view overlay C).
+Proof. exact rollback_restores_run_prev. Qed.
+
+(* between two worlds of a run of complete invocations in which Committed.Index of t is the same there is no commit step
+   of a proposal of t (and hence, quiet_keeps_values, the stored values of t are the same) *)
+Theorem C06_no_commit_between_equal_cursors :
+  forall (t : N) (ls : list Label) (w : Wd),
+  i_reach w -> completes w ls -> i_committed_of (fold_left p2_step ls w) t = i_committed_of w t -> quiet t w ls.
+Proof. exact quiet_from_cursor. Qed.
+
 Print Assumptions C06_rollback_restores_steps_partial.
 Print Assumptions C06_rollback_restores_run_partial.
+Print Assumptions C06_rollback_restores_run_chain_partial.
+Print Assumptions C06_no_commit_between_equal_cursors.
